@@ -48,7 +48,7 @@ func (c *Client) handleSort() error {
 	cmd := findPendingCmdByType[*SortCommand](c)
 	for c.dec.SP() {
 		var num uint32
-		if !c.dec.ExpectNumber(&num) {
+		if !c.dec.ExpectNumber(&num) || !c.dec.Expect(num != 0, "non-zero message number") {
 			return c.dec.Err()
 		}
 		if cmd != nil {
